@@ -434,26 +434,23 @@ theorem natural_breaks_spec (cells : List (Ext Rat)) (sample : List Rat) (k : Na
   intro v _
   rw [cellS_gen, cell_classIds _ b3 b1 _ (by omega)]
 
-/-- **natural_breaks, fallback branch** (fewer than `k` distinct sample values; the last bin is forced to the
-    raster maximum there too, `natural_breaks_last_forced`): the bins are the distinct sample values with the
-    last one replaced by `mx` -/
+/-- **natural_breaks, fallback branch** (fewer than `k` distinct sample values; the raster maximum is
+    added to them, `natural_breaks_last_forced`): the bins are the distinct values of the sample and `mx`,
+    ascending; at most `k` of them; the sample may even be empty -/
 theorem natural_breaks_fallback_spec (cells : List (Ext Rat)) (sample : List Rat) (k : Nat) (mx : Rat)
-    (hmx : maxQ (finiteVals cells) = some mx) (hsub : ∀ s ∈ sample, s ≤ mx) (hne : sample ≠ [])
-    (hku : (uniq sample).length < k) :
+    (hmx : maxQ (finiteVals cells) = some mx) (hku : (uniq sample).length < k) :
     ∃ bins, naturalBreaks Gen.cpuBinShape id cells sample k = .ok (cells.map (classOf bins)) bins ∧
-      bins.Pairwise (· ≤ ·) ∧ bins.length < k ∧ mx ∈ bins := by
-  have hune : uniq sample ≠ [] := by
-    obtain ⟨a, ha⟩ := List.exists_mem_of_ne_nil sample hne
-    exact List.ne_nil_of_mem ((mem_uniq a sample).mpr ha)
-  obtain ⟨b1, b2, b3, b4, _⟩ := setLast_sorted (uniq sample) mx hune ((uniq_sorted sample).imp le_of_lt)
-    (fun a ha => hsub a ((mem_uniq a sample).mp ha))
-  refine ⟨setLast (uniq sample) mx, ?_, b1, by omega, b4⟩
+      bins.Pairwise (· ≤ ·) ∧ bins.length ≤ k ∧ mx ∈ bins := by
+  have b1 := insertU_sorted mx (uniq sample) (uniq_sorted sample)
+  have b2 := insertU_length mx (uniq sample)
+  have b4 : mx ∈ insertU mx (uniq sample) := (insertU_mem mx mx _).mpr (Or.inl rfl)
+  refine ⟨insertU mx (uniq sample), ?_, b1.imp le_of_lt, by omega, b4⟩
   unfold naturalBreaks
   simp only [hmx, hku, if_true]
   congr 1
   apply List.map_congr_left
   intro v _
-  rw [cellS_gen, cell_classIds _ b3 b1 _ (by omega)]
+  rw [cellS_gen, cell_classIds _ (List.ne_nil_of_mem b4) (b1.imp le_of_lt) _ (le_refl _)]
 
 /-- in both branches every finite cell of the raster gets a class in `[0, k-1]` -/
 theorem natural_breaks_every_finite_classified (cells : List (Ext Rat)) (bins : List Rat) (k : Nat) (mx x : Rat)
@@ -476,6 +473,7 @@ example : naturalBreaks Gen.cpuBinShape id [.fin 1, .fin 2, .fin 4, .fin 5, .pin
     .ok [.fin 0, .fin 0, .fin 1, .fin 1, .nan] [2, 5] := by decide +kernel
 example : (back (fun i => [1, 2, 4, (5 : Rat)].getD i 0) 4 1 4).length = 2 := by decide +kernel
 -- the sample [0] of the raster [5, 0]: the fallback branch still classifies the maximum
-example : naturalBreaks Gen.cpuBinShape id [.fin 5, .fin 0] [0] 3 = .ok [.fin 0, .fin 0] [5] := by decide +kernel
+example : naturalBreaks Gen.cpuBinShape id [.fin 5, .fin 0] [0] 3 = .ok [.fin 1, .fin 0] [0, 5] := by decide +kernel
+example : naturalBreaks Gen.cpuBinShape id [.fin 5, .nan] [] 3 = .ok [.fin 0, .nan] [5] := by decide +kernel
 
 end XrsVerif.C12
